@@ -152,8 +152,13 @@ def _reuse_plans():
         return B.ro_replace([B.story('S1', [B.item('a1'), B.p('one'), B.item('a2')], md=B.timing_md(duration='3')),
                              B.story('S2', [B.item('b1')], md=B.timing_md(text_time='2.5'))], message_id=str(mid), ed_start='2021-03-04T09:00:00')
 
+    def BODY():
+        # every kind of paragraph a body can hold: empty, absent text, blank, bracketed, plain, non-ASCII blanks
+        return [B.p(None), B.item('n1'), B.p('carried text'), B.p(''), B.item('n2'), B.p('   '), B.p('(a note)'), B.item('n3'),
+                B.p('\u00a0\u3000'), E('p', E('b', text='bold'), text=None), B.p(' last ')]
+
     def n_story():
-        return B.story('N', [B.item('n1'), B.p('carried text'), B.item('n2'), B.item('n3')], md=B.timing_md(duration='10'))
+        return B.story('N', BODY(), md=B.timing_md(duration='10'))
 
     carriers = {
         'StoryAppend': B.story_append([n_story()], message_id='10'),
@@ -162,7 +167,8 @@ def _reuse_plans():
         'StoryReplace': B.story_replace('S1', [n_story()], message_id='10'),
         'EAStoryReplace': B.ea('REPLACE', {'storyID': 'S1'}, [[n_story()]], message_id='10'),
         'EAStoryInsert': B.ea('INSERT', {'storyID': 'S2'}, [[n_story()]], message_id='10'),
-        'StorySend': B.story_send('N', [B.item('n1'), B.p('carried text'), B.item('n2'), B.item('n3')], message_id='10'),
+        'StorySend': B.story_send('N', BODY(), message_id='10'),
+        'StorySend-existing': B.story_send('S1', BODY(), message_id='10'),
         'RunningOrderReplace': B.ro_replace([n_story(), B.story('S2', [B.item('b1')])], message_id='10'),
         'ItemInsert': B.item_insert('S1', 'a2', [B.item('n1', extra=[E('itemEdDur', text='5')]), B.item('n2')], message_id='10'),
         'ItemReplace': B.item_replace('S1', 'a1', [B.item('n1'), B.item('n2')], message_id='10'),
@@ -186,7 +192,7 @@ def _reuse_plans():
     for cn, carrier in carriers.items():
         for en, edit in edits.items():
             for restore in (False, True):
-                plan = [(cn.split('-')[0], carrier), (en, edit(story_of(cn)))]
+                plan = [(cn.split('-')[0], carrier), (en, edit('S1' if cn == 'StorySend-existing' else story_of(cn)))]
                 if restore:
                     plan.append(('RunningOrderReplace', rr(12)))
                 plan.append(('reuse', 0))
